@@ -57,6 +57,8 @@ def run_one(check, cfg, rng=None, steps=None, max_steps=None, want_events=False)
     violation = None
     n = max_steps or cfg.get("n_steps", 20)
     i = 0
+    if cfg.get("big"):
+        stats["cfg:big_run"] += 1
     try:
         while True:
             if steps is not None:
